@@ -205,8 +205,15 @@ fn set_regs(vm: &mut truth::vm::AstVm, regs: &Sexp) {
 }
 
 /// oracle: VM(e) = VM(const_simplify(e)) under a register valuation
+fn mentions_register(e: &Sexp) -> bool {
+    match e { Sexp::List(v) => e.head() == Some("reg") || v.iter().any(mentions_register), _ => false }
+}
+
 fn has_undefined_const_subexpr(e: &Sexp) -> bool {
     if matches!(ref_eval(e), Ok(None)) { return true; }
+    // a register-free divisor that this reference cannot evaluate (libm functions): it may be zero, so an error
+    // reported for the expression cannot be called wrong
+    if e.head() == Some("bin") && matches!(e.args()[0].as_atom(), "div" | "rem") && !mentions_register(&e.args()[2]) && ref_eval(&e.args()[2]).is_err() { return true; }
     match e.head() {
         Some("un") | Some("bin") | Some("tern") => e.args().iter().skip(if e.head() == Some("tern") { 0 } else { 1 }).any(has_undefined_const_subexpr),
         _ => false,
@@ -303,6 +310,7 @@ fn ref_eval(e: &Sexp) -> Result<Option<RefVal>, ()> {   // Ok(None) = no defined
                 },
                 (RefVal::F(x), RefVal::F(y)) => match a[0].as_atom() {
                     "add" => RefVal::F(x + y), "sub" => RefVal::F(x - y), "mul" => RefVal::F(x * y), "div" => RefVal::F(x / y),
+                    "rem" => RefVal::F(x % y),   // IEEE fmod
                     "eq" => RefVal::I((x == y) as i32), "ne" => RefVal::I((x != y) as i32), "lt" => RefVal::I((x < y) as i32), "le" => RefVal::I((x <= y) as i32), "gt" => RefVal::I((x > y) as i32), "ge" => RefVal::I((x >= y) as i32),
                     _ => return Err(()),
                 },
